@@ -29,6 +29,7 @@ from .errdisc import effective_cond, NO_ERROR
 
 CAP = 4096          # partitions per block before collapsing
 WIDEN_AFTER = 3     # growing joins of one partition before widening
+SPLIT_MAX = 64      # widest interval of a loop counter that is split into single values
 STEP_LIMIT = 200000
 
 _R = {
@@ -70,12 +71,66 @@ def _tdiv(a, b):
     return q if (a >= 0) == (b >= 0) else -q
 
 
+_WRITES = {}
+
+
+def writes_int_memory(fb, usr, depth=0):
+    """May a call of the function with this USR store to an integer object that is not one of its own locals?
+    (syntactic summary over the bodies in the fact base, callees followed three levels; unknown => True)"""
+    if not usr or fb is None:
+        return True
+    key = (id(fb), usr)
+    if key in _WRITES:
+        return _WRITES[key]
+    bodies = [g for g in fb.by_usr.get(usr, []) if g.has_cfg]
+    if not bodies or depth > 3:
+        return True
+    _WRITES[key] = True     # recursion guard
+    res = False
+    for g in bodies:
+        for n in g.all_nodes():
+            k = n.get('k')
+            lv = None
+            if k == 'assign':
+                lv = n['lhs']
+            elif k == 'unop' and n.get('op') in ('++', '--'):
+                lv = n['sub']
+            if lv is not None:
+                m = g.nodes.get(g.strip(lv, casts=False))
+                if m is None:
+                    res = True
+                elif m.get('k') == 'var' and m.get('vk') in ('local', 'param'):
+                    dt = None
+                    for p in g.params:
+                        if p['d'] == m['d']:
+                            dt = p['tC']
+                    if dt is not None and dt.rstrip().endswith('&') and type_range(m.get('t')) is not None:
+                        res = True       # integer reference parameter
+                elif type_range(m.get('t')) is not None:
+                    res = True
+            elif k in ('call', 'construct'):
+                q = n.get('q', '')
+                if 'cv' in n or q in PURE_CALLS or q.startswith('std::numeric_limits::') or q.startswith('__builtin_') \
+                        or (k == 'construct' and not n.get('args')):
+                    continue
+                if writes_int_memory(fb, n.get('u'), depth + 1):
+                    res = True
+            elif k in ('new', 'delete'):
+                res = True
+            if res:
+                break
+        if res:
+            break
+    _WRITES[key] = res
+    return res
+
+
 class Result:
     def __init__(self):
         self.events = {}      # node id -> (kind, math interval, operand intervals) of the first event at the node
         self.obs = {}         # node id -> hull of the values the node had (every element evaluated with an integer value)
         self.reached = set()  # element ids executed
-        self.returns = []     # (node id, marks dict, value interval or None)
+        self.returns = []     # (node id | None for falling off the end of a void function, marks dict, value interval or None)
         self.throws = []      # (node id, marks dict)
         self.marked_reached = {}   # element id -> set of frozenset(marks.items()) seen when it executed (only marked states)
         self.truncated = False
@@ -115,7 +170,10 @@ class Interp:
                         if s is not None and s.get('k') == 'var':
                             self.escaped.add(s['d'])
         self.live = self._liveness()
+        self.counters = self._counters()
         self.res = Result()
+        for nid in list(fn.nodes):      # register every expression key (dependencies, type range) up front
+            self.lv_info(nid)
 
     # ------------------------------------------------------------------ variables
     def tracked_var(self, n):
@@ -132,6 +190,31 @@ class Interp:
         key = ('v', d)
         self.kr.setdefault(key, r)
         return key
+
+    def _counters(self):
+        """decl ids of integer locals that are stepped inside a loop and only by ++ / -- / += c / -= c there: a state that
+        knows such a counter within a small interval is split into one state per value (abstract unrolling of
+        `if (n > 15) throw; for (; n > 0; --n)`)."""
+        fn = self.fn
+        good, bad = set(), set()
+        for n in fn.all_nodes():
+            k = n.get('k')
+            lv = None
+            step = False
+            if k == 'unop' and n.get('op') in ('++', '--'):
+                lv, step = n['sub'], True
+            elif k == 'assign':
+                lv = n['lhs']
+                step = n.get('op') in ('+=', '-=') and fn.const_value(n['rhs']) is not None
+            if lv is None:
+                continue
+            m = fn.nodes.get(fn.strip(lv, casts=False))
+            if m is None or m.get('k') != 'var' or self.tracked_var(m) is None:
+                continue
+            if not any(fn.in_range(n['id'], L['b'], L['e']) for L in fn.loops):
+                continue
+            (good if step else bad).add(m['d'])
+        return good - bad
 
     def _liveness(self):
         fn = self.fn
@@ -222,11 +305,13 @@ class Interp:
                 if not ok:
                     break
             if ok:
-                # a record local whose address escapes can be written by callees
+                # a field of a local record is private storage (direct stores touch nothing else); once the record's
+                # address is taken anywhere in the function, callees and stores through pointers may change it
+                local = not ptr
                 if not ptr and any(d in self.escaped for d in deps):
                     ptr = True
                 text = fn.expr(nid)
-                out = (text, frozenset(deps), ptr)
+                out = (text, frozenset(deps), ptr, local)
                 self.edeps[text] = (frozenset(deps), ptr)
                 self.kr.setdefault(('e', text), type_range(n.get('t')))
         self._lv_cache[nid] = out
@@ -281,8 +366,18 @@ class Interp:
                 self.kill_memory(st)
             return
         info = self.lv_info(nid)
-        if info is None or info[2]:
-            self.kill_memory(st)
+        if type_range(n.get('t')) is None:
+            # store to a pointer / record object: integer facts survive, except those read *through* the object
+            rv = fn.root_var(nid)
+            if rv is not None and rv[0] == 'var':
+                d = rv[1]
+                for k in [k for k in st if k[0] == 'e' and d in self.edeps.get(k[1], (frozenset(), True))[0]]:
+                    del st[k]
+            else:
+                self.kill_memory(st)
+            return
+        if info is None or not info[3]:
+            self.kill_memory(st)      # integer store through a pointer: may alias any pointer-based fact
         if info is not None:
             key = ('e', info[0])
             if val is not None:
@@ -295,7 +390,17 @@ class Interp:
         return {k[1]: v[0] for k, v in st.items() if k[0] == 'x'}
 
     def sig(self, st):
-        return tuple(sorted((k, v[0]) for k, v in st.items() if k[0] == 'x' or (k[0] == 'v' and v[0] == v[1])))
+        """partition signature: marks, exact value of locals that hold a single value, and the sign of every location whose
+        interval excludes 0 (keeps the two halves of `c != 0` apart: the NUL tests of the parsers)."""
+        out = []
+        for k, v in st.items():
+            if k[0] == 'x' or (k[0] == 'v' and v[0] == v[1]):
+                out.append((k, v[0]))
+            elif v[0] > 0:
+                out.append((k, '+'))
+            elif v[1] < 0:
+                out.append((k, '-'))
+        return tuple(sorted(out, key=repr))
 
     def join(self, a, b):
         out = {}
@@ -554,8 +659,22 @@ class Interp:
         if k in ('call', 'construct', 'new', 'delete', 'autodtor'):
             if not pure:
                 q = n.get('q', '')
-                if not (q in PURE_CALLS or q.startswith('std::numeric_limits::') or q.startswith('__builtin_')):
-                    self.kill_memory(st, calls=True)
+                default_init = k == 'construct' and not n.get('args')     # T x; initialises the new object only
+                if not (default_init or q in PURE_CALLS or q.startswith('std::numeric_limits::') or q.startswith('__builtin_')):
+                    if writes_int_memory(fn.fb, n.get('u')):
+                        self.kill_memory(st, calls=True)
+                    else:
+                        # callee stores to no integer object: only what is read through its pointer arguments can change
+                        ds = set()
+                        for a in [n.get('recv')] + list(n.get('args', []) or []):
+                            if a is None:
+                                continue
+                            for x in fn.subtree(a):
+                                m = fn.nodes[x]
+                                if m.get('k') == 'var' and m.get('vk') in ('local', 'param') and type_range(m.get('t')) is None:
+                                    ds.add(m['d'])
+                        for k2 in [k2 for k2 in st if k2[0] == 'e' and ds & self.edeps.get(k2[1], (frozenset(), True))[0]]:
+                            del st[k2]
                     for a in n.get('args', []) or []:
                         if a is None:
                             continue
@@ -730,6 +849,13 @@ class Interp:
         def arrive(b, st):
             lv = self.live.get(b, ())
             st = {k: v for k, v in st.items() if k[0] != 'v' or k[1] in lv}
+            for k, v in st.items():
+                if k[0] == 'v' and k[1] in self.counters and 0 < v[1] - v[0] <= SPLIT_MAX:
+                    for c in range(v[0], v[1] + 1):
+                        s2 = dict(st)
+                        s2[k] = (c, c)
+                        arrive(b, s2)
+                    return
             d = instates.setdefault(b, {})
             sg = None if b in collapsed else self.sig(st)
             old = d.get(sg)
@@ -832,6 +958,8 @@ class Interp:
             succs = blk['succs']
             if b == fn.exit or not succs:
                 continue
+            if fn.exit in succs and not any(fn.nodes[e].get('k') == 'return' for e in elems):
+                res.returns.append((None, self.marks(st), None))     # control falls off the end (void function)
             if 'cond' in blk and len(succs) == 2 and blk.get('termcls') != 'SwitchStmt' and isinstance(blk.get('cond'), int):
                 ec = effective_cond(fn, blk)
                 for idx, sense in ((0, True), (1, False)):
